@@ -278,7 +278,7 @@ B('D1-levelgo-append-no-length-reset', ['C09', 'C05', 'C02'], 'index_level.py', 
 B('D1-indexgo-append-no-recache', ['C09', 'C02'], 'index.py', '_IndexGOMixin.append',
   'self._positions_mutable_count += 1\n        self._recache = True', 'self._positions_mutable_count += 1', 'D1', '_IndexGOMixin.append')
 B('D1-indexgo-append-early-return', ['C09', 'C02'], 'index.py', '_IndexGOMixin.append',
-  'if initialize_map:\n            self._map = AutoMap(self._labels_mutable)', 'if initialize_map:\n            self._map = AutoMap(self._labels_mutable)\n            return', 'D1', '_IndexGOMixin.append')
+  'if map_new is not None:\n            self._map = map_new', 'if map_new is not None:\n            self._map = map_new\n            return', 'D1', '_IndexGOMixin.append')
 B('D2-setitem-mutate-before-validate', ['C09'], 'frame.py', 'FrameGO.__setitem__',
   '        row_count = len(self._index)\n', '        row_count = len(self._index)\n        self._columns.append(key)\n', 'D2', 'FrameGO.__setitem__')
 B('D2-setitem-drop-length-check', ['C09'], 'frame.py', 'FrameGO.__setitem__',
@@ -946,3 +946,13 @@ B('R7-ih-loc-searchsorted-fill-unfrozen', ['C01'], 'index_hierarchy.py', 'IndexH
 N('R7-iloc-searchsorted-isinstance', ['C01'], 'series.py', 'Series.iloc_searchsorted',
   "        if post.__class__ is np.ndarray: # an element if a single value was given\n            post.flags.writeable = False\n        return post",
   "        if isinstance(post, np.ndarray):\n            post.flags.writeable = False\n        return post")
+
+# ---------------------------------------------------------------------------------- IndexLevel key walkers (C02 / C05)
+B('KW-contains-leaf-unconditional', ['C02', 'C05'], 'index_level.py', 'IndexLevel.__contains__',
+  '            node.index._loc_to_iloc(k)\n            found = True # if above does not raise\n', '            node.index._loc_to_iloc(k)\n            return True\n',
+  'I.leaf-exit-key-exhausted', '__contains__')
+B('KW-leaf-lookup-length-unchecked', ['C02', 'C05'], 'index_level.py', 'IndexLevel.leaf_loc_to_iloc',
+  '                if key_depth == key_depth_max:\n                    return pos + offset\n                break', '                return pos + offset',
+  'I.leaf-exit-key-exhausted', 'leaf_loc_to_iloc')
+N('KW-contains-len-check', ['C02', 'C05'], 'index_level.py', 'IndexLevel.__contains__',
+  '            node.index._loc_to_iloc(k)\n            found = True # if above does not raise\n', '            node.index._loc_to_iloc(k)\n            found = True\n            continue\n')
